@@ -114,7 +114,7 @@ func init() {
 		Level:     "proof",
 		Technique: "abstract interpretation: CNF must-fact dataflow over the fully inlined SSA graph of every ABI method; entailment of (effect not executed ∨ required witness) at every normal exit",
 		Explanation: "D1 gate rule: for every non-safe ABI method and every effect site reachable in its inlined graph (storage write, notification, token-moving native call, contract.Call with flags beyond read-only), the facts at every normal exit entail ¬executed(site) ∨ required-witness, with the requirement taken from the documented table (DESIGN App. A). All paths are covered at once, so with the VM failure model an invocation lacking the witness leaves no trace. " +
-			"D2: no witness beyond the documented ones gates every effect of a method. D3: the multisignature accounts are classified from their terms: threshold ⌊2n/3⌋+1 resp. ⌊n/2⌋+1 over the documented key source, for every n. D4: methods declared safe reach no effect site. D5: the verify methods return true only under the documented multisignature. D6: gates inside an exception-catching frame do not count (engine). D7 the notary-disabled 2/3+1 is collected by votes: the vote-protocol rules of C17 (member voter, exact threshold, same-id ballot removed, distinct counting, 20-block window) are part of this check. S3: the admin an NNS gate names is the admin of the current registration: a transfer and a (re-)registration both store Admin = nil (transfer-resets-admin, register-without-admin); the verify converse accepts an account left out where the two thresholds coincide.",
+			"D2: no witness beyond the documented ones gates every effect of a method. D3: the multisignature accounts are classified from their terms: threshold ⌊2n/3⌋+1 resp. ⌊n/2⌋+1 over the documented key source, for every n. D4: methods declared safe reach no effect site. D5: the verify methods return true only under the documented multisignature. D6: gates inside an exception-catching frame do not count (engine). D7 the notary-disabled 2/3+1 is collected by votes: the vote-protocol rules of C17 (member voter, exact threshold, same-id ballot removed, distinct counting, 20-block window) are part of this check. S3: the admin an NNS gate names is the admin of the current registration: a transfer and a (re-)registration both store Admin = nil (transfer-resets-admin, register-without-admin); the verify converse accepts an account left out where the two thresholds coincide. R13 catching-frame: no function with a deferred recover that a method of the property's contracts can reach lies outside the who-may-catch table (container.deleteNNSRecords).",
 		NotCovered:  "that a correctly witnessed invocation succeeds (depends on arguments and state); run-time signer sets are not enumerated — the proof is over program paths.",
 		Assumptions: []string{"CheckWitness(t) is true only if the transaction carries the witness of t (or t is the calling contract): the VM's definition", "neo.GetCommittee / roles.GetDesignatedByRole are constant within one invocation"},
 		Run:         runC03,
